@@ -126,7 +126,8 @@ def rand_style(rng, families, ident, images):
                                      [25, 5, 0], [2, 55, 0], [255, 0, 0]])
     elif c < .55:
         k = rng.randrange(2)  # one file name per image: the library stores images by content digest
-        kw["bg_image"] = {"hex": images[k], "filename": ["vf-a.png", "vf-b.png"][k]}
+        # two names of which one ends with the other: an image is found by its name, not by how a name ends
+        kw["bg_image"] = {"hex": images[k], "filename": ["vf-a.png", "a.png"][k]}
     if rng.random() < .4:
         kw["text_wrap"] = rng.random() < .5
     for a in ("text_inset", "first_indent", "left_indent", "right_indent"):
@@ -507,10 +508,13 @@ def rand_script(rng):
     strokes = []
     n = rng.randint(1, 25)
     for i in range(n):
+        same_look = None
         if strokes and rng.random() < .5:
             # overlap / abut / supersede an earlier stroke
             s0 = rng.choice(strokes)
             side, r, c = s0[0], s0[1], s0[2]
+            if rng.random() < .3:
+                same_look = s0[4:7]  # drawn again with the very same look, but (often) longer or shifted
             k = rng.random()
             if k < .3:
                 pass  # exactly the same edge again
@@ -535,7 +539,10 @@ def rand_script(rng):
             r, c = rng.randrange(R), rng.randrange(C)
         maxlen = (C - c) if side in ("top", "bottom") else (R - r)
         ln = 1 if merges else rng.randint(1, min(6, maxlen))
-        strokes.append([side, r, c, ln, rng.randrange(1, 41) / 4.0, [rng.randrange(256) for _ in range(3)], rng.choice(["solid", "dashes", "dots"])])
+        if same_look is not None:
+            strokes.append([side, r, c, ln if merges else rng.randint(1, maxlen), same_look[0], list(same_look[1]), same_look[2]])
+        else:
+            strokes.append([side, r, c, ln, rng.randrange(1, 41) / 4.0, [rng.randrange(256) for _ in range(3)], rng.choice(["solid", "dashes", "dots"])])
     sp = sorted({rng.randrange(n) for _ in range(rng.choice([0, 0, 1, 2]))})
     case = {"part": "border", "shape": [R, C], "merges": merges, "strokes": strokes, "save_points": sp}
     k = rng.random()
